@@ -259,6 +259,10 @@ func (r *runner) waitFor(exp []sEvent) {
 			i = 0
 		}
 		need[[4]string{ev, c, fmt.Sprint(i), e.S}]++
+		if ev == "hstart" && e.K == "starttls" && r.scen.Cfg["tls"] == "starttls" && r.scen.Cfg["tls_hold_after"] == "1" {
+			// the handler is held after the upgrade: the client's side of the handshake is over by then
+			need[[4]string{"tlsup", c, fmt.Sprint(i), ""}]++
+		}
 		if ev == "hend" && e.K == "starttls" && r.scen.Cfg["tls"] == "starttls" {
 			// a real upgrade: the client side of the handshake has to be over as well before anything else is sent
 			r.mu.Lock()
@@ -336,7 +340,8 @@ func (r *runner) handler(w *gldap.ResponseWriter, req *gldap.Request) {
 	defer func() {
 		atomic.AddInt64(&r.inflight, -1)
 	}()
-	if p != nil && p.hold {
+	holdAfter := p != nil && p.hold && p.kind == "starttls" && r.scen.Cfg["tls"] == "starttls" && r.scen.Cfg["tls_hold_after"] == "1"
+	if p != nil && p.hold && !holdAfter {
 		<-p.rel
 	}
 	if p != nil && p.panic {
@@ -356,6 +361,10 @@ func (r *runner) handler(w *gldap.ResponseWriter, req *gldap.Request) {
 		v := "tls-ok"
 		if err := req.StartTLS(r.tlsSrv); err != nil {
 			v = "tls-err"
+		}
+		if holdAfter {
+			// the handler keeps working after the upgrade (auditing, marking the session secured, ...)
+			<-p.rel
 		}
 		r.emit(tEvent{Ev: "hend", C: c, Conn: req.ConnectionID(), Req: req.ID, I: i, K: kind, Val: v})
 		return
@@ -452,7 +461,13 @@ func (r *runner) frameBytes(cl *sClient, e sEvent) []byte {
 	case "op":
 		return opFrame(id, cl.tag, e.I, r.seed).Encode()
 	case "starttls":
-		return lx.Envelope(id, lx.ExtReq(lx.OIDStartTLS), nil).Encode()
+		b := lx.Envelope(id, lx.ExtReq(lx.OIDStartTLS), nil).Encode()
+		if r.scen.Cfg["inject_plain"] == "1" {
+			// a complete plaintext request glued behind the StartTLS request (same segment), as an injecting attacker would
+			// place it: it must never be served (frame index 900 is not part of the model's behaviour)
+			b = append(b, opFrame(msgID(cl.idx, 900), cl.tag, 900, r.seed).Encode()...)
+		}
+		return b
 	case "unbind":
 		return lx.Envelope(id, lx.UnbindReq(), nil).Encode()
 	case "bad":
@@ -569,6 +584,10 @@ func (r *runner) step(e sEvent) {
 		ropts := []gldap.Option{}
 		if r.tlsSrv != nil && r.scen.Cfg["tls"] != "starttls" {
 			ropts = append(ropts, gldap.WithTLSConfig(r.tlsSrv))
+		}
+		if r.scen.Cfg["tls"] == "emptycfg" {
+			// a TLS configuration without certificates: the listener works, every handshake fails
+			ropts = append(ropts, gldap.WithTLSConfig(&tls.Config{}))
 		}
 		r.emit(tEvent{Ev: "run_call"})
 		go func() {
@@ -838,6 +857,15 @@ func runScenario(sc *sScenario, out *hx.Out, seed int64, tlsSrv, tlsCli *tls.Con
 		runRet: make(chan error, 1), started: map[string]map[int]bool{}, relsd: map[string]map[int]bool{}, ocRel: make(chan struct{}),
 		stopRet: map[string]chan struct{}{}, seed: seed, gates: map[string]int{}}
 	r.cond = sync.NewCond(&r.mu)
+	if ps := sc.Cfg["procs"]; ps != "" {
+		// one P: a goroutine that has just been started does not run until its creator blocks - the schedule in which
+		// "spawn, then go on without blocking" orderings show
+		var n int
+		fmt.Sscan(ps, &n)
+		if n > 0 {
+			defer runtime.GOMAXPROCS(runtime.GOMAXPROCS(n))
+		}
+	}
 	if m := sc.Cfg["tls"]; m == "tls" || m == "starttls" || m == "mtls" {
 		tm := getTLSMaterial()
 		r.tlsSrv, r.tlsCli, r.clientCert, r.wrongCert = tm.server, tm.client, tm.clientCert, tm.wrongCert
@@ -905,6 +933,15 @@ func runScenario(sc *sScenario, out *hx.Out, seed int64, tlsSrv, tlsCli *tls.Con
 	case "in-use":
 		if l, err := net.Listen("tcp", r.addr); err == nil {
 			defer l.Close()
+		}
+	case "in-use-gldap":
+		// the port is held by another gldap server of this process
+		if other, err := gldap.NewServer(gldap.WithLogger(hx.NullLogger())); err == nil {
+			go func() { _ = other.Run(r.addr) }()
+			for i := 0; i < 2000 && !other.Ready(); i++ {
+				time.Sleep(time.Millisecond)
+			}
+			defer func() { _ = other.Stop() }()
 		}
 	case "bad-noport":
 		r.runAddr = "127.0.0.1"
@@ -1029,6 +1066,11 @@ func runScenario(sc *sScenario, out *hx.Out, seed int64, tlsSrv, tlsCli *tls.Con
 	}
 	// final settle: a short quiet period, then the end-of-scenario samples
 	time.Sleep(5 * time.Millisecond)
+	if ms := sc.Cfg["settle_ms"]; ms != "" {
+		var n int
+		fmt.Sscan(ms, &n)
+		time.Sleep(time.Duration(n) * time.Millisecond)
+	}
 	r.finish()
 }
 
